@@ -34,15 +34,16 @@ ASSUMPTIONS = [
     "numpy linear algebra is the trusted base of the model side",
     "guards (cond of the true observability blocks of every setup and of the global system, cond of each setup's true state sequence, modal participation at the references) come from the true system only",
     "hard criteria are neutralised through hc (conj False, xi_max 10, mpc_lim 0, mpd_lim 1e9): criteria are C09's business",
-    "tolerances against the truth 1e-7 (fn, lambda), 1e-6 (xi), 1e-9 (1-MAC); gain invariance is judged between identifications with 1e-8 / 1e-7 / 1e-9",
+    "tolerances against the truth 1e-7 (fn, lambda), 1e-6 (xi), 1e-9 (1-MAC); independence of the per-setup gains is judged between the identifications of one case with the same tolerances (observed worst difference over the thorough lattice before the kappa guard: 3e-9 in fn, 1e-8 in xi; it is reported in max_observed_error)",
+    "combined guard kappa = cO*cR*cX^2 <= 1e7 (worst factors over the setups): the covariance-type Hankel matrix squares the conditioning of the state sequence; the six worst lattice corners (m=3, two references, one roving sensor per setup, real shapes, kappa up to 9e7, xi error 4e-8) are rejected by it",
     "ordmax = 2m (the statement speaks of order 2m; the per-setup bases are re-based with a pseudo-inverse that needs full column rank)",
     "damping profile, fs and the record lengths of the setups are assigned by fixed rotation on the lattice index; quick additionally rotates the pole placement and the non-unit gain assignments (thorough: all placements, all four gain assignments)",
     "the 'after every preprocessing step' clause of the split is covered by C14's BFS, not here",
 ]
 
 HC = dict(conj=False, xi_max=10.0, mpc_lim=0.0, mpd_lim=1e9, cov_max=1e9)
-GUARD = {"cO": 1e6, "cR": 1e6, "cX": 1e4, "part": 1e-3}
-INV_TOL = {"fn": 1e-8, "xi": 1e-7, "mac": 1e-9}
+GUARD = {"cO": 1e6, "cR": 1e6, "cX": 1e4, "part": 1e-3, "kappa": 1e7}
+INV_TOL = dict(T.TOL)      # see ASSUMPTIONS
 ROVING = {"all1": (1, 1, 1, 1), "all2": (2, 2, 2, 2), "mixed": (1, 3, 2, 4)}
 PLACES = ("first", "last", "interleaved", "reversed", "per-setup")
 GAINS = {"unit": (1.0, 1.0, 1.0, 1.0), "g1": (1e-2, 1e2, -1e-1, 1.0), "g2": (1e2, -1e-1, 1.0, 1e-2),
@@ -255,6 +256,7 @@ def guards(S, setups, br, L):
         g["cX"] = max(g["cX"], gi["cX"])
         g["part"] = min(g["part"], gi["part"])
     g["cO"] = max(g["cO"], T.cond(S.obs(None, br - 1)))       # global shift-invariance block
+    g["kappa"] = g["cO"] * g["cR"] * g["cX"] ** 2               # worst factors over the setups, see _truth.guards_decay
     return g
 
 
@@ -287,8 +289,10 @@ def _short(case):
 def _tables(S, Lam, Fn, Xi, Phi, L, matched):
     o = 2 * S.m
     Lam, Fn, Xi, Phi = (np.asarray(x) for x in (Lam, Fn, Xi, Phi))
-    if Fn.shape != (o, o + 1) or Xi.shape != Fn.shape or Lam.shape != Fn.shape or Phi.shape != (o, o + 1, L):
-        return [("table-shape", f"tables Fn{Fn.shape} Xi{Xi.shape} Lambds{Lam.shape} Phi{Phi.shape}, expected ({o},{o + 1}[,{L}])")], {}
+    if (Fn.ndim != 2 or Fn.shape[1] <= o or Xi.shape != Fn.shape or Lam.shape != Fn.shape
+            or Phi.shape != Fn.shape + (L,)):
+        return [("table-shape", f"tables Fn{Fn.shape} Xi{Xi.shape} Lambds{Lam.shape} Phi{Phi.shape}: expected equal (poles, orders) "
+                                f"layouts with a column for order {o} and {L} shape components (references + all roving sensors)")], {}
     return T.compare_poles(S, Lam[:, o], Fn[:, o], Xi[:, o], Phi[:, o, :], matched=matched)
 
 
@@ -320,7 +324,9 @@ def run_ident(t, case, seed):
     for k in ("cO", "cR", "cX"):
         t.err(f"guard.{k}", g[k])
     t.err("guard.1/part", 1.0 / g["part"])
-    if g["cO"] > GUARD["cO"] or g["cR"] > GUARD["cR"] or g["cX"] > GUARD["cX"] or g["part"] < GUARD["part"]:
+    t.err("guard.kappa", g["kappa"])
+    if (g["cO"] > GUARD["cO"] or g["cR"] > GUARD["cR"] or g["cX"] > GUARD["cX"] or g["part"] < GUARD["part"]
+            or g["kappa"] > GUARD["kappa"]):
         t.skipped_by_guard += 1
         t.outcomes["guard-reject"] += 1
         return
